@@ -685,6 +685,17 @@ func simMain(t *testing.T) {
 			}
 			continue
 		}
+		if hl := os.Getenv("VERIF_HASHLOG"); hl != "" {
+			// determinism self-test: one line per run, compared across processes by the supervisor
+			if f, err := os.OpenFile(hl, os.O_APPEND|os.O_CREATE|os.O_WRONLY, 0o644); err == nil {
+				var sg []string
+				for _, v := range o.viol {
+					sg = append(sg, v.Sig())
+				}
+				fmt.Fprintf(f, "%d %x %d %d %q\n", idx, o.hash, o.steps, o.r.Res.Switches, sg)
+				f.Close()
+			}
+		}
 		sum.Steps += int64(o.steps)
 		sum.Switches += int64(o.r.Res.Switches)
 		sum.SimSeconds += o.r.SimTime.Seconds()
